@@ -64,13 +64,15 @@ TTYPES = {0: (1, lambda n: 1), 1: (1, lambda n: 1), 2: (1, lambda n: 1), 3: (1, 
 class TCase:
     """a structure of the table of harness/src/vtree.rs"""
 
-    def __init__(self, sid, ty, vlen, poison, path, wpos):
+    def __init__(self, sid, ty, vlen, poison, path, wpos, kill=None):
         self.sid, self.ty, self.vlen, self.poison, self.path, self.wpos = sid, ty, vlen, poison, path, wpos
+        self.kill = kill                  # None, "a" (every lock) or the number of the lock that is killed before the path runs
         self.hist, self.meta = [], {}
         self.kind, self.cont, self.lock, self.n = f"type{ty}", "tree", "-", TTYPES[ty][1](vlen)
 
     def text(self):
-        return f"t {self.sid} {self.ty} {self.vlen} {1 if self.poison else 0} {self.path} {'-' if self.wpos is None else self.wpos}"
+        k = "" if self.kill is None else f"k{self.kill}"
+        return f"t {self.sid} {self.ty} {self.vlen} {1 if self.poison else 0}{k} {self.path} {'-' if self.wpos is None else self.wpos}"
 
 
 def gen(tier, rng):
@@ -96,6 +98,17 @@ def gen(tier, rng):
                         continue                      # the flag matters only where results are produced
                     for w in wl:
                         cases.append(TCase(f"t16_{k}", ty, vlen, poison, path, w))
+                        k += 1
+            # killed locks (their raw lock panicked in a release): the value paths that do not lock must not depend on it
+            for kill in (["a", 0, n - 1] if n > 1 else ["a"] if n else []):
+                for path in ("drop", "drop_unwinding", "into_inner", "into_child", "get_mut", "try_new_reject",
+                             "try_new_reject_retry", "into_iter", "into_iter_first"):
+                    if path == "get_mut" and not gm:
+                        continue
+                    if path in ("into_iter", "into_iter_first") and ty not in ITER_TYPES:
+                        continue
+                    for w in ([None, n - 1] if path == "get_mut" else [None]):
+                        cases.append(TCase(f"t16_{k}", ty, vlen, False, path, w, kill))
                         k += 1
 
     def add(*a):
@@ -166,7 +179,8 @@ def coq_expr(s, r):
 
 def classify(s, r):
     if isinstance(s, TCase):
-        return [f"kind=tree", f"type={s.ty}", f"payloads={s.n}", f"path={s.path}", f"poisoned={s.poison}"]
+        return [f"kind=tree", f"type={s.ty}", f"payloads={s.n}", f"path={s.path}", f"poisoned={s.poison}",
+                f"killed={'none' if s.kill is None else 'all' if s.kill == 'a' else 'one'}"]
     return [f"kind={s.kind}", f"cont={s.cont}", f"lock={s.lock}", f"n={s.n}", f"path={s.path}"]
 
 
@@ -185,5 +199,7 @@ def to_replay(s):
 def from_replay(j):
     t = (j.get("scenario") or j)["case"].split()
     if t[0] == "t":
-        return [TCase(t[1], int(t[2]), int(t[3]), t[4] == "1", t[5], None if t[6] == "-" else int(t[6]))]
+        kl = t[4].split("k")[1] if "k" in t[4] else None
+        return [TCase(t[1], int(t[2]), int(t[3]), t[4].startswith("1"), t[5], None if t[6] == "-" else int(t[6]),
+                      None if kl is None else "a" if kl == "a" else int(kl))]
     return [VCase(t[1], t[2], t[3], t[4], int(t[5]), t[6], None if t[7] == "-" else int(t[7]))]
